@@ -150,6 +150,79 @@ class DoSingleRangeRequest(Contract):
     canaries = [("if offset == size == 0:", "if offset == 0:", "status_416_iff_unsatisfiable")]
 
 
+class DoMultipleRangeRequest(Contract):
+    """File._doMultipleRangeRequest for a list of 1..3 parsed ranges with symbolic bounds: one part per satisfiable range,
+    in header order, with the RFC 9110 offset / size and its own Content-Range; Content-Length is the exact number of
+    bytes the parts and separators make up; 416 exactly when no range is satisfiable (seeded change C25-2)."""
+    prop = "C25"
+    module = M
+    function = "File._doMultipleRangeRequest"
+    calls = dict(CALLS, **{"time.time": lambda I: 1.0, "time": lambda I: 1.0, "os.getpid": lambda I: 7, "getpid": lambda I: 7})
+    differential = False
+    inputs = dict(n=Int(lo=0, small=range(0, 5)), k=OneOf(1, 2, 3),
+                  s0=Opt(Int(small=[0, 2])), e0=Opt(Int(small=[1, 6])), s1=Opt(Int(small=[0, 9])), e1=Opt(Int(small=[3])),
+                  s2=Opt(Int(small=[1])), e2=Opt(Int(small=[1])))
+
+    def _ranges(self, i):
+        return [(i.s0, i.e0), (i.s1, i.e1), (i.s2, i.e2)][: i.k]
+
+    def requires(self, i):
+        class R:
+            pass
+        ok = i.n >= 0
+        for (a, b) in self._ranges(i):
+            r = R()
+            r.n, r.start, r.end = i.n, a, b
+            ok = band(ok, pre(r))
+        return ok
+
+    def setup(self, i):
+        f = mk(self, i)
+        req = self.opaque("request")
+        # case split on which ranges are satisfiable (RFC 9110 14.1.2), so that the expected list of parts is a concrete
+        # list on every path
+        sat = []
+        for (a, b) in self._ranges(i):
+            t = satisfiable(i.n, a, b)
+            sat.append(bool(t) if not is_sym(t) else bool(ctx().decide(core.as_bool_term(t))))
+        return dict(self=f, args=[req, self._ranges(i)], objs=dict(f=f), ghost=dict(ranges=self._ranges(i), sat=sat))
+
+    def bounded_inputs(self, tier):
+        return iter(())  # rendered end to end by RenderRanges
+
+    raises = ()
+
+    def _parts(S):
+        n = S.i.n
+        info = list(S.result)
+        codes = [e.args[0] for e in S.calls("request.setResponseCode")]
+        hdrs = {bytes(e.args[0]): e.args[1] for e in S.calls("request.setHeader")}
+        sat = S.ghost["sat"]
+        want = [(a, b) for (a, b), ok in zip(S.ghost["ranges"], sat) if ok]
+        if not want:
+            return band(len(codes) == 1, codes[0] == http.REQUESTED_RANGE_NOT_SATISFIABLE, len(info) == 1,
+                        L(info[0][0]) == 0, info[0][1] == 0, info[0][2] == 0, veq(hdrs.get(b"content-length"), b"0"),
+                        veq(hdrs.get(b"content-range"), b"bytes */" + dec(n)))
+        if len(info) != len(want) + 1 or len(codes) != 1:
+            return False
+        out = band(codes[0] == http.PARTIAL_CONTENT, info[-1][1] == 0, info[-1][2] == 0)
+        total = L(info[-1][0])
+        for (sep, off, size), (a, b) in zip(info, want):
+            fp = first_pos(n, a, b)
+            lp = last_pos(n, a, b)
+            cr = b"Content-range: bytes " + dec(fp) + b"-" + dec(lp) + b"/" + dec(n) + b"\r\n\r\n"
+            out = band(out, off == fp, size == lp - fp + 1, size > 0, off + size <= n, core.seq_endswith(sep, cr))
+            total = total + L(sep) + size
+        return band(out, veq(hdrs.get(b"content-length"), dec(total)))
+
+    ensures = dict(one_part_per_satisfiable_range_in_order_and_exact_content_length=_parts)
+    canaries = [("            if partOffset == partSize == 0:\n                continue",
+                 "            if partOffset == partSize == 0:\n                break",
+                 "one_part_per_satisfiable_range_in_order_and_exact_content_length"),
+                ("contentLength += len(partSeparator)", "contentLength += len(partSeparator) - 1",
+                 "one_part_per_satisfiable_range_in_order_and_exact_content_length")]
+
+
 # -- the producers: which bytes of the file reach the request ----------------------------------------------------
 
 
@@ -527,6 +600,7 @@ class RenderRanges(Bounded):
 
 
 CONTRACTS = [RangeToOffsetAndSize, ContentRange, DoSingleRangeRequest, SingleRangeResume, NoRangeResume]
+DRAFT = [DoMultipleRangeRequest]
 BOUNDED = [RenderRanges]
 NOTES = dict(
     explanation="Range arithmetic proved against RFC 9110 14.1.2 for all sizes/starts/ends; header parser, "
